@@ -31,7 +31,8 @@ ERange(a)   == [k |-> "range", args |-> a]
 SAssign(bk, x, ty, ex) == [k |-> "assign", bk |-> bk, name |-> x, ty |-> ty, e |-> ex]
 SPrint(ex)  == [k |-> "print", e |-> ex]
 SExpr(ex)   == [k |-> "expr", e |-> ex]
-SSetIdx(x, i, ex) == [k |-> "setidx", name |-> x, idx |-> i, e |-> ex]
+SSetIdx(x, i, ex) == [k |-> "setidx", name |-> x, idx |-> i, op |-> "", e |-> ex]
+SSetIdxOp(x, i, o, ex) == [k |-> "setidx", name |-> x, idx |-> i, op |-> o, e |-> ex]
 SIf(c, t, el, e) == [k |-> "if", cond |-> c, then |-> t, elifs |-> el, else |-> e]
 SFor(v, it, b) == [k |-> "for", var |-> v, iter |-> it, body |-> b]
 SRet(ex)    == [k |-> "return", e |-> ex]
@@ -76,6 +77,7 @@ ListOps ==
   {<<SExpr(EM(EId("xs"), "append", <<e>>))>> : e \in IntE} \cup
   {<<SPrint(EM(EId("xs"), "pop", <<>>))>>} \cup
   {<<SSetIdx("xs", i, e)>> : i \in Idx, e \in {EInt(9), ECall("len", <<EId("xs")>>)}} \cup
+  {<<SSetIdxOp("xs", i, o, e)>> : i \in {EInt(0), EUn("-", EInt(1))}, o \in {"+", "-", "*", "//", "%"}, e \in {EInt(2), EUn("-", EInt(2))}} \cup
   {<<SExpr(EM(EId("xs"), "swap", <<EInt(0), EInt(2)>>))>>} \cup
   {<<SPrint(EM(EId("xs"), "contains", <<e>>))>> : e \in {EInt(1), EInt(7)}} \cup
   {<<SPrint(EBin(o, e, EId("xs")))>> : o \in {"in", "not in"}, e \in {EInt(2), EInt(9)}} \cup
@@ -84,6 +86,7 @@ ListOps ==
   {<<SFor("y", ECall("sorted", <<EId("xs")>>), <<SPrint(EId("y"))>>)>>}
 DictOps ==
   {<<SSetIdx("d", kk, e)>> : kk \in Keys, e \in {EInt(7), H(EInt(4))}} \cup
+  {<<SSetIdxOp("d", EStr(<<"a">>), o, EInt(3))>> : o \in {"+", "-", "*", "//", "%"}} \cup
   {<<SExpr(EM(EId("d"), "insert", <<kk, EInt(8)>>))>> : kk \in Keys} \cup
   {<<SPrint(EIdx(EId("d"), kk))>> : kk \in Keys} \cup
   {<<SPrint(EBin("in", kk, EId("d")))>> : kk \in Keys} \cup
